@@ -12,6 +12,7 @@ Field names are numbers (`f<name>` on the Python side).  A record value is the i
 """
 import enum
 import itertools
+import zlib
 
 from common import parse_sx, err_name
 
@@ -115,7 +116,20 @@ class Builder:
         if k in ('record', 'optrec'):
             base = s.Record if k == 'record' else s.RecordWithPresentBit
             fields = [s.Field(f'f{n}', self.build(fty), default_value=self.default_obj(fty, d)) for n, fty, d in fields_of(ty)]
-            return type(f'V{k.capitalize()}{next(_counter)}', (base,), {'Fields': fields, '__test__': False})
+            name = f'V{k.capitalize()}{next(_counter)}'
+            if len(fields) >= 2 and zlib.crc32(repr(ty).encode()) % 3 == 0:
+                # the same schema declared by inheritance: a parent record with a prefix of the fields, used once (so that
+                # anything remembered per class is remembered for the parent first), then `Fields = Parent.Fields + rest`
+                cut = 1 + zlib.crc32(repr(ty).encode()) // 3 % (len(fields) - 1)
+                parent = type(name + 'P', (base,), {'Fields': fields[:cut], '__test__': False})
+                for use in (lambda: parent.from_bytes(bytes(64)), lambda: parent.to_bytes(parent())):
+                    try:
+                        guarded_call(use, 1.0)
+                    except BaseException as e:   # noqa  (the parent is only warmed up, its own behaviour is not under test here)
+                        if isinstance(e, (KeyboardInterrupt, SystemExit)):
+                            raise
+                return type(name, (parent,), {'Fields': parent.Fields + fields[cut:], '__test__': False})
+            return type(name, (base,), {'Fields': fields, '__test__': False})
         if k == 'arr':
             return s.Array(self.build(ty[1]), int_class(ty[2], ty[3], ty[4]))
         raise ValueError(ty)
